@@ -160,10 +160,12 @@ def parse_prints(out: str) -> list:
     """All top-level <<...>> values printed by PrintT, by bracket matching (robust to interleaving of lines)."""
     vals = []
     i = 0
+    start = re.compile(r'<<\s*"')     # TLC wraps a tuple wider than ~80 columns over several lines: `<< "VERDICT",\n   1, ...`
     while True:
-        i = out.find('<<"', i)
-        if i < 0:
+        m = start.search(out, i)
+        if not m:
             break
+        i = m.start()
         try:
             v, j = _parse_tla_value(out, i)
             vals.append(v)
@@ -223,6 +225,10 @@ def tlc(spec: str, cfg: str | None = None, *, workers: int | str = 'auto', env: 
         dep = int(m.group(1))
     prints = parse_prints(out)
     verdicts = [v for v in prints if v and v[0] == 'VERDICT']
+    # completeness: every printed verdict must have been parsed (a lost verdict would read as acceptance)
+    raw = len(re.findall(r'<<\s*"VERDICT"', out))
+    if raw != len(verdicts):
+        raise MachineryError('TLC printed %d VERDICT tuples but %d were parsed (%s)' % (raw, len(verdicts), os.path.basename(spec)))
     others = [v for v in prints if not (v and v[0] == 'VERDICT')]
     cov = {}
     if coverage:
